@@ -199,6 +199,29 @@ def diff_kind(x, y):
     return "content"
 
 
+_SHORTCUT = __import__("re").compile(r"(?<![\w.])[+-]?(\d+\.?\d*|\.\d+)?([eE][+-]?\d+)?(r|m|i|ilog|j)(?![\w.])", __import__("re").I)
+
+
+def _only_shortcut_lines_differ(a, b, limit):
+    """both texts denote the same problem, and every line that differs holds a shortcut word in a or in b"""
+    import difflib
+
+    from vlib import spec
+
+    la, lb = a.split("\n"), b.split("\n")
+    for tag, i1, i2, j1, j2 in difflib.SequenceMatcher(a=la, b=lb, autojunk=False).get_opcodes():
+        if tag == "equal":
+            continue
+        block = la[i1:i2] + lb[j1:j2]
+        if not any(_SHORTCUT.search(l.split("$")[0]) for l in block):
+            return False
+    try:
+        da, db = spec.denote_many([a, b], limit)
+        return not spec.diff_problems(da, db)
+    except Exception:  # noqa: BLE001
+        return False
+
+
 def judge(case, r):
     out = []
     if "skip" in r:
@@ -208,8 +231,13 @@ def judge(case, r):
     def cmp(name, a, b):
         if a != b:
             i, x, y = first_diff(a, b)
-            out.append(({"mechanism": "repeatable-write", "class": name, "how": diff_kind(x, y), "problem": edited},
-                        f"{name}: line {i}: {x!r} vs {y!r}"))
+            sig = {"mechanism": "repeatable-write", "class": name, "how": diff_kind(x, y), "problem": edited}
+            if name == "observation-changes-output" and _only_shortcut_lines_differ(a, b, case["limit"]):
+                # the recorded finding C08-F5 seen from C19: once an intermediate rebuild has dropped or shortened a
+                # shortcut it does not come back; every differing line holds a shortcut in one of the two files and
+                # both files denote the same problem.  Anything else keeps the plain signature.
+                sig["cause"] = "shortcut-recompression-history"
+            out.append((sig, f"{name}: line {i}: {x!r} vs {y!r}"))
 
     if "again" in r:
         cmp("write-twice-differs", r["g1"], r["again"])
